@@ -1,11 +1,13 @@
-(** Extraction of the executable models and monitors (OCaml).  Only [ExtrOcamlBasic] is used:
+(** Extraction of the executable models and monitors (OCaml).  [ExtrOcamlBasic] and (for the control model's strings) [ExtrOcamlString] are used:
     bool, option, list, prod, unit, sumbool map to OCaml's own types; [nat] stays Peano; there is
     no [Extract Constant]. *)
-From Coq Require Import Extraction ExtrOcamlBasic.
-From TP Require QModel Mon_C20 PObs PMon.
+From Coq Require Import Extraction ExtrOcamlBasic ExtrOcamlString.
+From TP Require QModel Mon_C20 PObs PMon CModel.
 Extraction Language OCaml.
 Separate Extraction
   QModel.init QModel.observe1 QModel.step QModel.enabled
   Mon_C20.m_init Mon_C20.m_step Mon_C20.ok_C20
   PObs.observe1 PObs.observe PModel.init PModel.step PModel.enabled
-  PMon.mon_run PMon.trk_init PMon.ok_prop.
+  PMon.mon_run PMon.trk_init PMon.ok_prop
+  CModel.build_commands CModel.handshake_ok CModel.wf_surface CModel.render CModel.interpret
+  CModel.find_command CModel.sess_run.
